@@ -215,6 +215,19 @@ class Builtins:
             return SInt(to_term_int(v), 0, 1)
         if isinstance(v, float):
             return int(v)
+        if isinstance(v, SFloat):
+            from .values import FloatMode
+            if FloatMode.mode != "real":
+                raise Unsupported("int(float) in the exact float model")
+            # truncation toward zero; the relaxed model has no infinities/NaN, for which CPython raises: both exits are
+            # offered non-deterministically
+            if self.cx.choose("int_of_float_raises"):
+                raise PyRaise(SExc("OverflowError"))
+            k = self.cx.int("trunc")
+            x = v.term
+            kt = z3.ToReal(to_term_int(k))
+            self.cx.assume(z3.If(x >= 0, z3.And(kt <= x, x < kt + 1), z3.And(kt >= x, x > kt - 1)))
+            return k
         raise Unsupported(f"int({type(v).__name__})")
 
     def f_float(self, pos, kw, fr):
@@ -240,17 +253,31 @@ class Builtins:
         raise Unsupported("abs")
 
     def f_min(self, pos, kw, fr):
-        return self._minmax(pos, True)
+        return self._minmax(pos, True, kw.get("key"), fr)
 
     def f_max(self, pos, kw, fr):
-        return self._minmax(pos, False)
+        return self._minmax(pos, False, kw.get("key"), fr)
 
-    def _minmax(self, pos, is_min):
+    def _minmax(self, pos, is_min, key=None, fr=None):
         if len(pos) == 1:
             c = self.it.iter_concrete(pos[0])
             if c is None:
+                l = pos[0]
+                if isinstance(l, SList) and l.elem is not None and key is not None:
+                    # over-approximation: SOME element of the sequence (the ordering by `key` is not modelled); the key
+                    # function is run once on that element so that anything it cannot do is still noticed
+                    n = list_len(l)
+                    if self.cx.branch(truth(self.cx, cmp("==", n, 0)), "minmax-of-empty"):
+                        raise PyRaise(SExc("ValueError"))
+                    m = self.cx.int("argmin" if is_min else "argmax")
+                    self.cx.assume(z3.And(to_term_int(m) >= 0, to_term_int(m) < to_term_int(n)))
+                    x = l.elem(m)
+                    self.it.call_value(key, [x], {}, fr)
+                    return x
                 raise Unsupported("min/max of an abstract sequence")
             pos = c
+        if key is not None:
+            raise Unsupported("min/max with key over concrete operands")
         cur = pos[0]
         for x in pos[1:]:
             r = cmp("<" if is_min else ">", x, cur)
@@ -431,7 +458,7 @@ class Builtins:
             # over-approximation: some sub-sequence of `seq` (the predicate is not evaluated)
             n = self.cx.int("n_filtered", lo=0)
             self.cx.assume(to_term_int(n) <= to_term_int(list_len(seq)))
-            return SList(None, length=n, elem=seq.elem, fresh=True, label="filtered")
+            return SList(None, length=n, elem=self.selected_elem(seq, n), fresh=True, label="filtered")
         raise Unsupported("filter over " + type(seq).__name__)
 
     def chars_of(self, sv: SStr) -> SList:
@@ -686,6 +713,8 @@ class Builtins:
         out = SList(None, length=cx.int("n_kept", lo=0), fresh=True, label="filtered")
         cx.assume(to_term_int(out.length) <= n)
         out.ghost["filter_of"] = {"src": src, "index": j, "keep": keep, "elt": val, "elem_at_index": elem}
+        if val is elem:
+            out.elem = self.selected_elem(src, out.length)      # [x for x in src if ...]: elements of src, selection unknown
         return out
 
     def _generalise(self, val, j, sub, src: SList):
@@ -811,6 +840,11 @@ class Builtins:
             return container.ghost["contains"](x)
         if isinstance(container, (str, SStr)) and isinstance(x, (str, SStr)):
             return SBool(z3.Contains(str_term(container), str_term(x)))
+        if isinstance(container, SObj):
+            res = self.it.index.resolve_method(container.cls, "__contains__")
+            if res:
+                kind, ci, fn = res
+                return self.it.call_repo(f"{ci.module.rel}:{ci.name}.__contains__", [x], {}, self_obj=container)
         raise Unsupported(f"`in` on {type(container).__name__}")
 
     def getitem(self, obj, key):
@@ -869,6 +903,19 @@ class Builtins:
             return obj[lo:hi]
         if isinstance(obj, SList) and "arrays" in obj.ghost:
             return L.heap_slice(self.cx, obj, lo, hi)
+        if isinstance(obj, SList) and "seq" in obj.ghost:
+            t = obj.ghost["seq"]
+            n = z3.Length(t)
+            a = to_term_int(lo) if lo is not None else z3.IntVal(0)
+            b = to_term_int(hi) if hi is not None else n
+            a = z3.If(a < 0, z3.If(n + a < 0, 0, n + a), z3.If(a > n, n, a))
+            b = z3.If(b < 0, z3.If(n + b < 0, 0, n + b), z3.If(b > n, n, b))
+            sub = z3.SubString(t, a, z3.If(b > a, b - a, 0))
+            make = obj.ghost.get("seq_make")
+            if make is not None:
+                return make(sub)
+            from .ops import seq_list
+            return seq_list(sub)
         if isinstance(obj, SList) and lo is None and hi is None:
             return self.f_list([obj], {}, None)
         if isinstance(obj, (SStr, str)) :
@@ -927,6 +974,8 @@ class Builtins:
                     kind, ci, fn = res
                     return self.it.call_repo(f"{ci.module.rel}:{ci.name}.__deepcopy__", [SDict(concrete={}, fresh=True)], {}, self_obj=v)
             raise Unsupported("deepcopy")
+        if name in ("random.random", "random.randint", "random.choice") and self_obj is None:
+            return self.random_call(short, pos, kw)
         if name.startswith("itertools."):
             if short == "from_iterable" or name.endswith("chain.from_iterable"):
                 v = pos[0]
@@ -963,6 +1012,58 @@ class Builtins:
             if short == "index":
                 raise Unsupported("tuple.index")
         raise Unsupported(f"builtin method {name}")
+
+    def random_call(self, short, pos, kw):
+        """the pseudo-random source as non-determinism: ANY value the documented range allows"""
+        cx = self.cx
+        if short == "random":
+            from .values import FloatMode
+            if FloatMode.mode != "real":
+                raise Unsupported("random.random() in the exact float model")
+            r = z3.Real(cx._name("random"))
+            cx.assume(z3.And(r >= 0, r < 1))
+            return SFloat(r)
+        if short == "randint":
+            a, b = pos
+            empty = cmp(">", a, b)
+            if cx.branch(truth(cx, empty), "randint-empty-range"):
+                raise PyRaise(SExc("ValueError"))
+            k = cx.int("randint")
+            cx.assume(z3.And(to_term_int(k) >= to_term_int(a), to_term_int(k) <= to_term_int(b)))
+            return k
+        if short == "choice":
+            l = pos[0]
+            if isinstance(l, tuple):
+                l = SList(list(l))
+            if not isinstance(l, SList):
+                raise Unsupported("random.choice of " + type(l).__name__)
+            n = list_len(l)
+            if cx.branch(truth(cx, cmp("==", n, 0)), "choice-of-empty"):
+                raise PyRaise(SExc("IndexError"))
+            if l.concrete:
+                k = cx.int("choice")
+                cx.assume(z3.And(to_term_int(k) >= 0, to_term_int(k) < len(l.items)))
+                for idx in range(len(l.items) - 1):
+                    if cx.branch(to_term_int(k) == idx, f"choice-{idx}"):
+                        return l.items[idx]
+                return l.items[-1]
+            if l.elem is None:
+                raise Unsupported("random.choice of a list whose elements are not modelled")
+            k = cx.int("choice")
+            cx.assume(z3.And(to_term_int(k) >= 0, to_term_int(k) < to_term_int(n)))
+            return l.elem(k)
+        raise Unsupported("random." + short)
+
+    def selected_elem(self, src: SList, n_out):
+        """element function of a sub-sequence of `src`: element j is src[sel(j)] for an unknown, in-range selection sel"""
+        cx = self.cx
+        if src.elem is None:
+            return None
+        sel = cx.func("sel", z3.IntSort(), z3.IntSort())
+        j = z3.Int(cx._name("selj"))
+        cx.assume(z3.ForAll([j], z3.Implies(z3.And(j >= 0, j < to_term_int(n_out)),
+                                           z3.And(sel(j) >= 0, sel(j) < to_term_int(list_len(src)))), patterns=[sel(j)]))
+        return lambda k, src=src, sel=sel: src.elem(SInt(sel(to_term_int(k))))
 
     def list_method(self, short, l: SList, pos, kw):
         cx = self.cx
@@ -1015,6 +1116,11 @@ class Builtins:
         if short == "insert" and l.concrete and isinstance(pos[0], int):
             cx.log_write(l, "@items")
             l.items.insert(pos[0], pos[1])
+            return None
+        if short == "insert" and not l.concrete and l.elem is None and not l.ghost:
+            # insert into an opaque list (elements not modelled): only the length changes
+            cx.log_write(l, "@items")
+            l.length = int_binop("+", l.length, 1)
             return None
         if short == "index" and l.concrete:
             for k, y in enumerate(l.items):
